@@ -76,6 +76,8 @@ structure Req where
   skip : Bool                -- cfg.Next(c) (false when none is configured)
   expGen : Option Nat        -- cfg.ExpirationGenerator(c, &cfg) in whole seconds, when configured
   resp : Resp                -- the origin handler's response to this request
+  err : Bool := false        -- the origin handler returns an error: `c.Next()` ≠ nil, the middleware returns it
+                             -- unchanged and fiber's ErrorHandler writes `resp`
 deriving DecidableEq, Repr, Inhabited
 
 inductive XCache | absent | hit | miss | unreachable
@@ -318,7 +320,10 @@ def step (cfg : Config) (g : G) (t : Nat) : Option G :=
       | .panic => some (g.setThread t { th with pc := .panicked, ts := g.ts })
       | .hit o => some ({ g with mux := none }.setThread t { th with pc := .done, ts := g.ts, out := some o })
       | .pass sh => some ({ g with mux := none, sh := sh }.setThread t { th with pc := .next, ts := g.ts })
-    | .next => some (g.setThread t { th with pc := .afterNext, ran := true })
+    | .next =>
+      -- `if err := c.Next(); err != nil { return err }`: nothing is stored, no cache-status header
+      if q.err then some (g.setThread t { th with pc := .done, ran := true, out := some (passThrough .absent q.resp) })
+      else some (g.setThread t { th with pc := .afterNext, ran := true })
     | .afterNext =>
       if !cacheable q.resp.status then
         some (g.setThread t { th with pc := .done, out := some (passThrough .unreachable q.resp) })
